@@ -472,7 +472,8 @@ pub fn run_c09(tier: &str) -> i32 {
 // ====================================================================================== C10
 
 /// The child: `wbmc-core persist-child <dir> <side-file> <script>`; script = comma separated
-/// steps: `load`, `s<i>` (bring the store into state i), `flush`.
+/// steps: `load`, `s<i>` (bring the store into state i), `r<i>` (the same with the CAS entry starting
+/// over: the store becomes byte for byte what state i was in a fresh history), `flush`, `pflush`.
 pub fn child_main(args: &[String]) -> i32 {
     let dir = PathBuf::from(&args[0]);
     let side = PathBuf::from(&args[1]);
@@ -515,8 +516,13 @@ pub fn child_main(args: &[String]) -> i32 {
                     wb = periodic_flush(wb, &cfg).await;
                 }
                 note(json!({"flush": flush_no, "phase": "end"}));
-            } else if let Some(i) = step.strip_prefix('s') {
+            } else if let Some(i) = step.strip_prefix('s').or_else(|| step.strip_prefix('r')) {
                 let i: i64 = i.parse().expect("state index");
+                if step.starts_with('r') {
+                    // "back to state i": the CAS entry starts over, so that the store is exactly what
+                    // it was when state i was reached from an empty store
+                    wb.delete("cas".into(), cid(INTERNAL)).await.ok();
+                }
                 let r = cid(7);
                 wb.connected(r, None, &Protocol::TCP).await.ok();
                 wb.set("k".into(), json!(i), cid(INTERNAL), false).await.expect("set");
@@ -785,36 +791,54 @@ pub fn run_c10(tier: &str) -> i32 {
     // level 2: from every distinct directory state: load -> mutate -> flush -> mutate -> flush,
     // crashed at every index again
     let max_l2 = usize::MAX;
-    let script2 = format!("load,s{},pflush,s{},flush", flushes + 1, flushes + 2);
+    // two second runs: new states; and a return to the state that the slot written next held before
+    // (a flush whose content equals what an earlier flush left in the same slot)
+    let scripts2 = [
+        format!("load,s{},pflush,s{},flush", flushes + 1, flushes + 2),
+        format!("load,r{},flush,s{},pflush", flushes - 2, flushes + 2),
+    ];
     let starts: Vec<(String, PathBuf, Vec<Value>)> =
         distinct_dirs.iter().take(max_l2).map(|(k, (d, a))| (k.clone(), d.clone(), a.clone())).collect();
     let mut l2_jobs = vec![];
-    for (si, (_, start_dir, _)) in starts.iter().enumerate() {
-        let d = fresh_dir(&root, &format!("l2dry-{si}"));
-        copy_dir(start_dir, &d);
-        let log = root.join(format!("l2dry-{si}.log"));
-        let o = run_child(&exe, &shim, &d, &root.join(format!("l2dry-{si}.side")), &script2, 0, None, Some(&log));
+    let dry_jobs: Vec<(usize, usize)> = (0..starts.len()).flat_map(|si| (0..scripts2.len()).map(move |sc| (si, sc))).collect();
+    let dries = par_map(&dry_jobs, |_, (si, sc)| {
+        let d = fresh_dir(&root, &format!("l2dry-{si}-{sc}"));
+        copy_dir(&starts[*si].1, &d);
+        let log = root.join(format!("l2dry-{si}-{sc}.log"));
+        let o = run_child(&exe, &shim, &d, &root.join(format!("l2dry-{si}-{sc}.side")), &scripts2[*sc], 0, None, Some(&log));
         let n2 = std::fs::read_to_string(&log).map(|t| t.lines().count()).unwrap_or(0);
+        // without a further crash the second run's last flush must be what a restart finds
+        let rec = recover(&d, &root.join(format!("l2dry-{si}-{sc}.rec")));
+        std::fs::remove_dir_all(&d).ok();
+        (o, n2, rec)
+    });
+    for ((si, sc), (o, n2, rec)) in dry_jobs.iter().zip(dries.iter()) {
         if o.exit != 0 {
             rep.machinery(format!("level-2 dry run failed (exit {})", o.exit));
             continue;
         }
-        for at in 1..=n2 {
-            l2_jobs.push((si, at));
+        evaluations += 1;
+        let replay = json!({"level1_dir": starts[*si].0, "script": scripts2[*sc], "crash_at": 0});
+        match (rec, &o.completed) {
+            (Ok(v), Some(c)) if v == c => {}
+            (Ok(v), c) => rep.violation(format!("second run (after a first crash) completed; a restart recovers {v} instead of its last flush {c:?}"), replay),
+            (Err(e), _) => rep.violation(format!("second run (after a first crash) completed: {e}"), replay),
         }
-        std::fs::remove_dir_all(&d).ok();
+        for at in 1..=*n2 {
+            l2_jobs.push((*si, *sc, at));
+        }
     }
-    let level2 = par_map(&l2_jobs, |i, (si, at)| {
+    let level2 = par_map(&l2_jobs, |i, (si, sc, at)| {
         let dir = fresh_dir(&root, &format!("l2-{i}"));
         copy_dir(&starts[*si].1, &dir);
-        let o = run_child(&exe, &shim, &dir, &root.join(format!("l2-{i}.side")), &script2, *at, None, None);
+        let o = run_child(&exe, &shim, &dir, &root.join(format!("l2-{i}.side")), &scripts2[*sc], *at, None, None);
         let rec = recover(&dir, &root.join(format!("l2-{i}.rec")));
         let fp = dir_fingerprint(&dir);
         std::fs::remove_dir_all(&dir).ok();
         (o, rec, fp)
     });
     let mut l2_dirs = BTreeSet::new();
-    for ((si, at), (o, rec, fp)) in l2_jobs.iter().zip(level2.iter()) {
+    for ((si, sc, at), (o, rec, fp)) in l2_jobs.iter().zip(level2.iter()) {
         evaluations += 1;
         l2_dirs.insert(fp.clone());
         if o.exit != 137 {
@@ -830,7 +854,7 @@ pub fn run_c10(tier: &str) -> i32 {
             allowed.push(p.clone());
         }
         outcomes.insert(format!("{:?}", rec.as_ref().map(|v| hash_str(&v.to_string()))));
-        let replay = json!({"level1_dir": starts[*si].0, "script": script2, "crash_at": at});
+        let replay = json!({"level1_dir": starts[*si].0, "script": scripts2[*sc], "crash_at": at});
         judge(&mut rep, &allowed, rec, replay, &format!("second run (after a first crash) crashed before its call #{at}"));
     }
     for (_, (d, _)) in distinct_dirs.iter() {
@@ -839,7 +863,7 @@ pub fn run_c10(tier: &str) -> i32 {
     std::fs::remove_dir_all(&root).ok();
     ev.set("evaluations", json!(evaluations));
     ev.set("distinct_nontrivial", json!(distinct_dirs.len() + l2_dirs.len()));
-    ev.set("rule", json!(format!("history of {flushes} flushes with pairwise distinct stores and registrations, killed before each of its {n1} mutating file-system calls (+ torn variants 0 and 1/2 of every *.tmp write); then from each distinct directory state a second run (load, mutate, flush, mutate, flush) killed before each of its calls; after every crash the real load() runs on a copy of the directory; distinct_nontrivial = number of distinct directory states left behind (file set + contents)")));
+    ev.set("rule", json!(format!("history of {flushes} flushes with pairwise distinct stores and registrations, killed before each of its {n1} mutating file-system calls (+ torn variants 0 and 1/2 of every *.tmp write); then from each distinct directory state two second runs (load, mutate, flush, mutate, flush - once into new states, once back to the state the slot written next held before) checked on completion and killed before each of their calls; after every crash the real load() runs on a copy of the directory; distinct_nontrivial = number of distinct directory states left behind (file set + contents)")));
     ev.set("crash_points_level1", json!(n1));
     ev.set("level1_runs", json!(jobs.len()));
     ev.set("level1_distinct_directory_states", json!(distinct_dirs.len()));
